@@ -2870,6 +2870,9 @@ def mpf2multiword(dtype, x, p=None, max_length=None):
 
     holds.
     """
+    if not x.context.isfinite(x):
+        # infinities and nan have no mantissa to split
+        return [mpf2float(dtype, x)]
     sign, man, exp, bc = x._mpf_
     mpf = x.context.mpf
     tp = get_precision(dtype)
